@@ -98,9 +98,34 @@ def ns(rng):
     return rng.randrange(0, 102481911520608)
 
 
+# ---- AudioSpecificConfig classes.  An env (aot sfi chan signalling ext_sfi) describes a configuration
+# (signalling: 0 plain, 1 hierarchical SBR, 2 hierarchical PS, 3 sync extension sbrPresentFlag 0,
+# 4 sync extension sbrPresentFlag 1, 5 = 4 + PS extension); the bytes come from the Gallina encoder
+# asc_encode (driver function C09_asc_bytes), so there is one definition of the syntax.
+ASC_POOL = []
+
+
+def gen_env(rng, sig):
+    sfi = rng.randint(0, 12)
+    ext = rng.randint(0, 12)
+    if sig in (1, 2, 4, 5) and rng.random() < 0.7:
+        ext = max(0, sfi - 3)                      # SBR doubles the rate
+    chan = rng.choice([1, 2, 2, 2, 6, 7, rng.randint(0, 7)])
+    return [rng.choice([2, 2, 2, 1, 3, 4]), sfi, chan, sig, ext]
+
+
+def build_asc_pool(ck, rng, per_class):
+    import vlib
+    envs = [gen_env(rng, sig) for sig in range(6) for _ in range(per_class)]
+    envs.append([2, 4, 2, 3, 0])                   # the repository's own vector 121056E500
+    envs.append([2, 7, 2, 4, 4])                   # 139056E5A0
+    envs.append([2, 7, 2, 1, 4])                   # 2B920800
+    out = vlib.run_driver(ck.prop, "C09_asc_bytes", [vlib.vs(e) for e in envs])
+    ASC_POOL[:] = [(vlib.vparse(o), e) for o, e in zip(out, envs)]
+
+
 def asc2(rng):
-    obj, sidx, chan = rng.randint(1, 4), rng.randint(0, 12), rng.randint(0, 7)
-    return bytes([(obj << 3) | (sidx >> 1), ((sidx & 1) << 7) | (chan << 3)])
+    return rng.choice(ASC_POOL)
 
 
 def mux_case(rng, mode, nframes, big, empty_video=False, late=False):
@@ -126,7 +151,8 @@ def mux_case(rng, mode, nframes, big, empty_video=False, late=False):
     want = sum(1 for f in frames if (not f[0]) or (len(f[3]) > 0 and not 7 <= (f[3][0] & 0x1f) <= 9))
     if late:
         frames, sps, pps = late_params(rng, frames, sps, pps)
-    return [mode, sps, pps, asc2(rng), frames, want]
+    cfg, env = asc2(rng)
+    return [mode, sps, pps, cfg, frames, want, 0, env]
 
 
 def is_set(f):
@@ -207,7 +233,8 @@ def hls_case(rng, nframes, late=False):
                [True, T2, T2, nal(rng, 50, 1)], [True, T2 + 40 * MS, T2 + 40 * MS, nal(rng, 20, 5)]]
     if late:
         frames, sps, pps = late_params(rng, frames, sps, pps)
-    return [0, sps, pps, asc2(rng), frames, frag, rate]
+    cfg, env = asc2(rng)
+    return [0, sps, pps, cfg, frames, frag, rate, env]
 
 
 E2E_SPS = bytes.fromhex("6764001facd9405005ba10000003001000000303c8f18319 60".replace(" ", ""))
@@ -282,6 +309,7 @@ def run(ck):
         return ck.finish(rule="build failed")
     rng = ck.rng
     T = ck.thorough
+    build_asc_pool(ck, rng, 12 if T else 6)
     big = 200 * 1024 if T else 40 * 1024
 
     # 1. every total size around 0, 1, 2 (3) packets in the four flag combinations, both header shapes
@@ -323,10 +351,11 @@ def run(ck):
     msig = lambda c, e, o: "mux:inband-paramset" if has_paramset(c) else "mux"
     mux0 = [mux_case(rng, 0, rng.randint(1, 30 if T else 14), big) for _ in range(1200 if T else 220)]
     # the D18 witness is replayed on every run: in-band SPS, PPS, AUD between slices
-    mux0.append([0, bytes([0x67, 1, 2]), bytes([0x68, 3]), bytes([0x12, 0x10]),
+    mux0.append([0, bytes([0x67, 1, 2]), bytes([0x68, 3]), bytes([0x12, 0x10, 0x56, 0xe5, 0x00]),
                  [[True, 0, 0, bytes([0x67, 0x42, 0, 0x1e])], [True, 0, 0, bytes([0x68, 0xce, 0x38, 0x80])],
                   [True, 0, 0, bytes([0x09, 0xf0])], [True, 0, 40000000, bytes([0x65, 0x88, 0x84, 0])],
-                  [False, 0, 0, bytes([0x21, 0x10, 5])], [True, 40000000, 40000000, bytes([0x41, 0x9a, 1])]], 3])
+                  [False, 0, 0, bytes([0x21, 0x10, 5])], [True, 40000000, 40000000, bytes([0x41, 0x9a, 1])]], 3, 0,
+                 [2, 4, 2, 3, 0]])
     ck.stream("packetizers", mux0, "C09_mux", "C09_mux", "C09_mux_ok", nontrivial=mux_nontrivial, sig=msig, sample=2)
     mux1 = [mux_case(rng, 1, rng.randint(1, 30 if T else 14), big) for _ in range(300 if T else 60)]
     ck.stream("muxer", mux1, "C09_mux", "C09_mux", "C09_mux_ok", nontrivial=mux_nontrivial, sig=msig, sample=1)
@@ -334,8 +363,7 @@ def run(ck):
     # 3b. frames that are written later than they are prepared (a consumer that keeps the Frame, as
     # hls.SegmentGenerator does): the packetizers with a deferring FrameWriter
     mux2 = [mux_case(rng, 2, rng.randint(2, 30 if T else 14), 7000) for _ in range(400 if T else 60)]
-    for c in mux2:
-        c[5] = 0
+
     ck.stream("deferred", mux2, "C09_mux", "C09_mux", "C09_mux_ok", nontrivial=mux_nontrivial, sig=msig, sample=1)
 
     # 3c. the real HLS path: packetizers -> hls.SegmentGenerator (memory segments) -> mpegts.Writer per segment;
@@ -366,6 +394,54 @@ def run(ck):
     ck.stream("malformed", bad, "C09_mux", "C09_mux", "C09_mux_loose_ok", compare=False,
               nontrivial=lambda c: any(f[0] and len(f[3]) == 0 for f in c[4]), sig=lambda c, e, o: "mux-malformed", sample=1)
 
+    # 4b. the ADTS header as a function of the configuration: every class, all payload sizes of interest;
+    # oracle: an independent ADTS parse of the header must give the fields asc_of_env announces
+    hdrs = []
+    for cfg, env in ASC_POOL:
+        for n in (0, 1, rng.randint(2, 8184), 8184):
+            hdrs.append([cfg, n, env])
+    ck.stream("asc_adts_header", hdrs, "C09_asc_header", "C09_asc_header", "C09_asc_header_ok",
+              nontrivial=lambda c: c[2][3] != 0, sig=lambda c, e, o: "asc-header:sig%d" % c[2][3], sample=2)
+    # configurations outside the specified classes (escape sampling frequency, reserved indices, channel
+    # configurations 8..15, other object types, a sync extension that is not SBR, truncated / padded
+    # configurations): the Decode/ToAdtsHeader model against the Go code, no oracle
+    odd = []
+    for _ in range(1500 if T else 250):
+        cfg, env = rng.choice(ASC_POOL)
+        b = bytearray(cfg)
+        k = rng.random()
+        if k < 0.25:
+            b = b[:rng.randint(0, len(b))]                       # truncated: a read past the end
+        elif k < 0.45:
+            b += rbytes(rng, rng.randint(1, 4))                  # trailing bytes (may contain 0x2b7 by chance)
+        elif k < 0.6:
+            i = rng.randrange(len(b)); b[i] ^= 1 << rng.randrange(8)   # one flipped bit
+        elif k < 0.75:
+            # near misses of the sync pattern behind a plain configuration: one bit of 0x2b7 flipped, the
+            # pattern with a leading 1, shifted by 0..7 bits, followed by what a real extension would carry
+            pat = rng.choice([0x2b7 ^ (1 << rng.randrange(11)), 0x2b7, 0x6b7 & 0x7ff, 0x2b6, 0x3b7])
+            bits = "".join(format(x, "08b") for x in cfg[:2]) + "1" * rng.randrange(8) + format(pat, "011b") \
+                + "00101" + "1" + format(rng.randint(0, 12), "04b") + "0" * 12
+            bits += "0" * (-len(bits) % 8)
+            b = bytearray(int(bits[i:i + 8], 2) for i in range(0, len(bits), 8))
+        else:
+            aot = rng.choice([1, 2, 3, 4, 6, 7, 17, 23, 30])
+            sfi = rng.choice([13, 14, 15, rng.randint(0, 12)])
+            chan = rng.randint(0, 15)
+            bits = format(aot, "05b") + format(sfi, "04b") + (format(rng.randrange(1 << 24), "024b") if sfi == 15 else "") \
+                + format(chan, "04b") + "000"
+            if rng.random() < 0.5:
+                bits += format(0x2b7, "011b") + format(rng.choice([5, 5, 2, 1]), "05b") + rng.choice(["0", "1"]) \
+                    + format(rng.choice([15, 13, rng.randint(0, 12)]), "04b") + format(rng.randrange(1 << 24), "024b")
+            bits += "0" * (-len(bits) % 8)
+            b = bytearray(int(bits[i:i + 8], 2) for i in range(0, len(bits), 8))
+        odd.append([bytes(b), rng.choice([0, 7, 100, 8184])])
+    # the model does not cover the escape object type, ALS, ER_BSAC inside hierarchical signalling: it says so
+    import vlib
+    verdict = vlib.run_driver(ck.prop, "C09_asc_header", [vlib.vs(c) for c in odd])
+    odd = [c for c, v in zip(odd, verdict) if v != "(2)"]
+    ck.stream("asc_decode_model", odd, "C09_asc_header", "C09_asc_header", None, sig=lambda c, e, o: "asc-model", sample=1)
+
     # 5. components: NewADTSHeader on the whole uint8 domain, CRC-32/MPEG against a second implementation
     adts = [[rng.randrange(256), rng.randrange(256), rng.randrange(256), rng.choice([0, 1, 8184, 8185, rng.randrange(70000)])]
             for _ in range(3000 if T else 400)]
@@ -384,13 +460,14 @@ def run(ck):
              "through the packetizers into a real hls.SegmentGenerator, every segment read and checked by ok_hls; a deferring FrameWriter stream; "
              "parameter sets stored into an initially empty shared video meta before the first IDR and replaced between IDRs (packetizers, NewMuxer, deferred, HLS); "
              "end to end media.NewStream + RTP with an SDP without sprop-parameter-sets, HLS segments checked by ok_hls_es; "
+             "AudioSpecificConfig drawn from every signalling class in all source-level streams, plus Decode+ToAdtsHeader component streams; "
              "separate malformed stream (empty video payloads); NewADTSHeader and CRC-32/MPEG component streams"
              % (top, big // 1024),
         trusted=["the ISO/IEC 13818-1 / 13818-7 / H.264 Annex B reading embodied in Model/C09TsDemux.v, C09Adts.v (adts_parse1) and "
                  "C09TsFrame.v (spec_video_es) is the specification",
                  "harness hook mpegts.VerifNewFrame (sets the unexported key flag)"],
         assumptions=["frames carry PID 256 or 257 (other PIDs share the video counter in the Go writer)",
-                     "AudioSpecificConfig is a plain two-byte configuration (object type 1..4, sampling index 0..12, channels 0..7)",
+                     "AudioSpecificConfig of the classes plain / hierarchical SBR / hierarchical PS / sync extension (sbrPresentFlag 0, 1, 1+PS), core object type 1..4, sampling indices 0..12, channel configuration 0..7; for explicitly signalled SBR the ADTS index expected is the extension index (the code's and nginx-rtmp's convention)",
                      "end-to-end stream: time stamps are not checked (DTS is wall clock there), structure and Annex-B content only",
                      "source time stamps 0 <= ns with ns*90000 < 2^63 (beyond, about 28.5 h, the int64 conversion to 90 kHz overflows)",
                      "AAC frame + 7 < 8192 (13-bit ADTS frame_length)",
